@@ -3,6 +3,7 @@
 // dns_encode/dns_decode of the name, query_datalen + unpack_data in the server's call shape.
 // Independent oracles: refdns (strict name legality), ref::match_datalen, ref::codec_decode.
 #include "sim/harness.h"
+#include "tunnel_common.h"
 #include "glue/unit_api.h"
 #include "ref/refmisc.h"
 #include "ref/refdns.h"
@@ -111,7 +112,7 @@ static Bytes content(size_t n, int cls, uint32_t salt)
 	return b;
 }
 
-static CaseResult run_case(Tape &t)
+static CaseResult unit_case(Tape &t)
 {
 	CaseResult r;
 	int L = t.range(100, 255);
@@ -184,6 +185,22 @@ static bool exhaustive(Stats &st, std::string &msg)
 	st.sample("enumerated: every L in 100..255 x every domain length 3..min(128,L-24) x 4 codecs x payload lengths {1,2,block-1,block,block+1,capacity-1,capacity,capacity+1} (+2048 to measure the capacity), header length 1 or 5, plain and wildcard server domain", true);
 	return true;
 }
+
+// system case: the REAL client (all its builders: version, login, codec tests, fragment-size probe with autoprobing, set-fragsize,
+// ping, data chunks) emits names through the real sendto(); the wire monitor checks every one against -M and the domain
+static CaseResult system_case(Tape &t)
+{
+	CaseResult r;
+	tun::Run R;
+	tun::run_tunnel(t, tun::CLEAN, R);
+	r.render = "system: " + R.render.substr(0, 500) + scn::fmt(" | client queries %llu, names >= 200 chars %llu", (unsigned long long)R.wm.n_cli_dns, (unsigned long long)R.wm.n_long_q);
+	if (R.v.failed("C08")) r.fail(R.v.first["C08"].sig, R.v.first["C08"].why + "\n" + r.render);
+	r.nontrivial = R.up && R.cfg.maxlen != 0;
+	r.cls("system"); if (R.cfg.maxlen) r.cls("system:-M-set"); if (R.cfg.frag < 0) r.cls("system:fragsize-autoprobe");
+	return r;
+}
+
+static CaseResult run_case(Tape &t) { return t.pick({40, 1}) == 0 ? unit_case(t) : system_case(t); }
 
 int main(int argc, char **argv)
 {
